@@ -214,5 +214,60 @@ def check(s):
         c = nz.canon(p.ret)
         s.ob("C11.4", "AbstractAlgorithm.learn", isinstance(c, tuple) and c and c[0] == "attr" and c[2] == "policy", "learn returns the policy field of the final training state (a new value, not the argument)",
              P.loc(dc.module, fn), key="returns-state-policy", detail=show(p.ret, maxlen=120))
-    for r_, n_ in (("C11.1", 250), ("C11.2", 20), ("C11.3", 50), ("C11.4", 250)):
+    # ---------------------------------------------------------------- C11.5 host-side (Gymnasium) environments are re-seeded from the key at every reset
+    check_gym_seeding(s)
+    # ---------------------------------------------------------------- C11.6 no process-wide JAX configuration is changed (PRNG implementation, x64, ...)
+    from .C12 import check_global_config
+    check_global_config(s, "C11.6")
+    for r_, n_ in (("C11.1", 250), ("C11.2", 20), ("C11.3", 50), ("C11.4", 250), ("C11.5", 4), ("C11.6", 50)):
         s.floor(r_, n_)
+
+
+def check_gym_seeding(s):
+    """GymToLeraxEnv keeps its randomness on the host, inside the wrapped gymnasium.Env. Training is a function of the key only if every
+    reset re-creates that generator from a seed derived from the key: the reset callback must pass seed=int(<its operand>) to
+    env.reset unconditionally, and the operand must be jr.randint(key, ...) (or the caller's explicit seed)."""
+    from ..vgraph import Closure
+    self_ = ("param", "self")
+    con = "GymToLeraxEnv.initial"
+    loc = s.loc("GymToLeraxEnv", "initial")
+    b = s.builder(inline=set())
+    cases = 0
+    for p in live(s.paths(b, "GymToLeraxEnv", "initial")):
+        explicit = any(v for t, v in p.conds)
+        ios = [x for x in walk(p.ret) if isinstance(x, tuple) and x and x[0] == "call" and x[1] == ("global", "jax.experimental.io_callback")]
+        ok = len(ios) == 1 and len(ios[0][2]) >= 3 and isinstance(ios[0][2][0], Closure)
+        s.ob("C11.5", con, ok, "the initial observation comes from one io_callback(reset_callback, shape, seed)", loc, key="gym-reset-io", detail=str(len(ios)))
+        if not ok:
+            continue
+        cases += 1
+        io = ios[0]
+        operand = io[2][2]
+        if explicit:
+            okop = ("param", "**kwargs") in set(walk(operand)) or any(isinstance(x, tuple) and x and x[0] == "param" and x[1].startswith("**") for x in walk(operand))
+            what = "the caller's explicit seed"
+        else:
+            okop = isinstance(operand, tuple) and operand[0] == "call" and operand[1] == ("global", "jax.random.randint") and operand[2] and operand[2][0] == ("param", "key")
+            what = "jr.randint(key, ...)"
+        s.ob("C11.5", f"{con}[explicit-seed={explicit}]", okop, f"the seed handed to the host callback is {what}", loc, key="gym-seed-source", detail=show(operand, maxlen=140),
+             necessary_for="the environment's randomness is a function of the key")
+        sub = live(b.apply_paths(io[2][0], (("param", "$seed"),)))
+        bad = []
+        n_reset = 0
+        for q in sub:
+            roots = [q.ret] + [e[1] for e in q.effects]
+            resets = {x for r_ in roots for x in walk(r_) if isinstance(x, tuple) and x and x[0] == "call" and x[1] == ("attr", ("attr", self_, "env"), "reset")}
+            n_reset += len(resets)
+            for c in resets:
+                sd = dict((k, v) for k, v in c[3] if k).get("seed")
+                if sd != ("call", ("global", "int"), (("param", "$seed"),), ()):
+                    bad.append(f"seed={show(sd if sd is not None else NONE, maxlen=80)}")
+            if not resets:
+                bad.append("a path of the callback does not reset the environment")
+        s.ob("C11.5", f"{con}[explicit-seed={explicit}]", not bad and n_reset >= 1 and len(sub) == 1,
+             "the callback resets the wrapped environment with seed=int(operand) on its single path (no state of an earlier run decides whether it is seeded)", loc,
+             key="gym-reset-seeded", detail="; ".join(bad) or f"{len(sub)} path(s)", necessary_for="repeating training with the same inputs (same environment object included) gives identical results")
+        s.ob("C11.5", f"{con}[explicit-seed={explicit}]", dict((k, v) for k, v in io[3] if k).get("ordered") == ("const", True) or str(dict((k, v) for k, v in io[3] if k).get("ordered")) == str(("const", True)),
+             "the host callback is ordered (resets and steps reach the environment in program order)", loc, key="gym-reset-ordered", detail=show(io, maxlen=160))
+    if cases == 0:
+        raise AnalysisError("GymToLeraxEnv.initial: no io_callback found")
